@@ -9,17 +9,21 @@
    4. json.Unmarshal into the event struct: type errors of the fields the accessors read
       (strings, integers, arrays), the room ID check (checkID / checkRoomID)          (modelled)
    5. canonicalisation of the stripped text: the result is an AST, printed canonically by users
-   6. checkEventContentHash: SHA-256 of the canonical text without signatures, unsigned,
-      hashes against hashes.sha256 -- the verdict is an INPUT of the model ([hok]); a missing or
-      undecodable hash counts as a mismatch, as in the code
-   7. mismatch: flag the event as redacted, RedactEventJSON, canonicalise; when the bytes differ
-      re-parse as a trusted event (same struct, same room ID check); CheckFields
+   6. an event that RedactEventJSON refuses is refused whatever its hash               (modelled)
+   7. checkEventContentHash: SHA-256 of the canonical text without signatures, unsigned,
+      hashes against hashes.sha256.  The SHA-256 itself is computed outside the model; the
+      decoding of hashes.sha256 (Base64Bytes.Decode, C17's model) and the comparison of ALL
+      decoded bytes are modelled ([hash_matches]); parse_untrusted takes the verdict [hok]
+   8. mismatch: flag the event as redacted, RedactEventJSON, canonicalise; when the bytes differ
+      re-parse as a trusted event (same struct, same room ID check); CheckFields on the result
       (when the bytes are equal the first parse is kept: same bytes, same fields -- the model
       returns the redacted AST in both cases)
-   8. match: CheckFields on the first parse. *)
+   9. match: CheckFields on the first parse.
+   CheckFields refusals carry a class (too large / too large but persistable / other) and hand
+   the event back; [parse_untrusted_full] keeps both, [parse_untrusted] forgets them. *)
 From Verif Require Import Lib.Bytes Json.Ast Json.Print Event.Redact.
 From Verif Require Import Gen.GenStrip Gen.GenVersions.
-From Verif Require Ident.Ids.
+From Verif Require Ident.Ids Ident.Base64.
 Open Scope N_scope.
 
 Definition untrusted_field : bytes := bs "newEventFromUntrustedJSONFunc".
@@ -117,11 +121,25 @@ Definition arr_or_absent (k : bytes) (j : json) : bool :=
 
 Definition blen (s : bytes) : N := N.of_nat (length s).
 
-(* checkID: a colon, the sigil, at most 255 bytes (which bounds the rune count as well) *)
+(* ---------- length classes (checkIDLength, CheckFields) ---------- *)
+(* refused outright / refused but persistable (more than 255 bytes, not more than 255 code
+   points) / some other error *)
+Inductive fclass := FOk | FErr | FTooLarge | FPersist.
+
+(* utf8.RuneCountInString of a decoded (hence valid UTF-8) string: the non-continuation bytes *)
+Definition rune_count (s : bytes) : N := N.of_nat (length (filter (fun c => negb (cont c)) s)).
+
+Definition len_class (s : bytes) : fclass :=
+  if 255 <? rune_count s then FTooLarge else if 255 <? blen s then FPersist else FOk.
+
+(* checkID: a colon, the sigil, then the length limits *)
+Definition id_class (sigil : N) (id : bytes) : fclass :=
+  if negb (existsb (fun c => c =? 58) id) then FErr
+  else if negb (match id with c :: _ => c =? sigil | [] => false end) then FErr
+  else len_class id.
+
 Definition id_ok (sigil : N) (id : bytes) : bool :=
-  existsb (fun c => c =? 58) id &&
-  match id with c :: _ => c =? sigil | [] => false end &&
-  (blen id <=? 255).
+  match id_class sigil id with FOk => true | _ => false end.
 
 Definition pseudo_id_version : bytes := bs "org.matrix.msc4014".
 (* a room ID that spec.NewRoomID accepts (the parsers refuse any other since the repair of F9);
@@ -130,69 +148,124 @@ Definition room_valid (room : bytes) : bool :=
   match Ident.Ids.room_id_parse room with Some _ => true | None => false end.
 Definition create_type : bytes := bs "m.room.create".
 
-(* unmarshal into eventV1 / eventV2 / eventV3 plus the room ID check of the parser *)
-Definition parse_checks (p : parser) (j : json) : bool :=
+(* unmarshal into eventV1 / eventV2 / eventV3 plus the room ID checks of the parser *)
+Definition room_class (room : bytes) : fclass :=
+  match id_class 33 room with
+  | FOk => if room_valid room then FOk else FErr
+  | c => c
+  end.
+
+Definition parse_class (p : parser) (j : json) : fclass :=
   match j with
   | JObj _ =>
       match str_field (bs "room_id") j, str_field (bs "sender") j, str_field (bs "type") j,
             optstr_field (bs "state_key") j, str_field (bs "redacts") j with
       | Some room, Some _, Some ty, Some sk, Some _ =>
-          int_field_ok (bs "depth") j && int_field_ok (bs "origin_server_ts") j &&
+          if negb (int_field_ok (bs "depth") j && int_field_ok (bs "origin_server_ts") j) then FErr else
           match p with
           | PV1 =>
-              match str_field (bs "event_id") j with Some _ => true | None => false end &&
-              arr_or_absent (bs "prev_events") j && arr_or_absent (bs "auth_events") j &&
-              id_ok 33 room && room_valid room
+              if match str_field (bs "event_id") j with Some _ => true | None => false end &&
+                 arr_or_absent (bs "prev_events") j && arr_or_absent (bs "auth_events") j
+              then room_class room else FErr
           | PV2 =>
-              match strs_field (bs "prev_events") j, strs_field (bs "auth_events") j with
-              | Some _, Some _ => true | _, _ => false end &&
-              id_ok 33 room && room_valid room
+              if match strs_field (bs "prev_events") j, strs_field (bs "auth_events") j with
+                 | Some _, Some _ => true | _, _ => false end
+              then room_class room else FErr
           | PV3 =>
-              match strs_field (bs "prev_events") j, strs_field (bs "auth_events") j with
-              | Some _, Some _ => true | _, _ => false end &&
-              let is_create := bytes_eqb ty create_type &&
-                               match sk with Some [] => true | _ => false end in
-              (is_create || (match room with c :: _ => c =? 33 | [] => false end && room_valid room))
+              if match strs_field (bs "prev_events") j, strs_field (bs "auth_events") j with
+                 | Some _, Some _ => true | _, _ => false end
+              then
+                let is_create := bytes_eqb ty create_type &&
+                                 match sk with Some [] => true | _ => false end in
+                if is_create || (match room with c :: _ => c =? 33 | [] => false end && room_valid room)
+                then FOk else FErr
+              else FErr
           end
-      | _, _, _, _, _ => false
+      | _, _, _, _, _ => FErr
       end
-  | _ => false
+  | _ => FErr
   end.
 
-(* CheckFields *)
-Definition check_fields (ver : bytes) (p : parser) (j : json) : bool :=
+Definition parse_checks (p : parser) (j : json) : bool :=
+  match parse_class p j with FOk => true | _ => false end.
+
+(* CheckFields, in the order of the code *)
+Definition check_fields_class (ver : bytes) (p : parser) (j : json) : fclass :=
   let nonnil k := match strs_field k j with Some (Some _) => true | _ => false end in
-  match p with
-  | PV1 => true                                   (* eventV1 builds fresh slices: never nil *)
-  | PV2 => nonnil (bs "auth_events") && nonnil (bs "prev_events")
-  | PV3 => nonnil (bs "prev_events")              (* eventV3.AuthEventIDs is never nil *)
-  end &&
-  (blen (canon_print j) <=? 65536) &&
-  match str_field (bs "type") j with Some ty => blen ty <=? 255 | None => false end &&
-  match optstr_field (bs "state_key") j with
-  | Some (Some sk) => blen sk <=? 255
-  | Some None => true
-  | None => false
-  end &&
-  (* pseudo IDs have no sigil or domain, but the length limit applies to them too *)
-  match str_field (bs "sender") j with
-  | Some s => if bytes_eqb ver pseudo_id_version then blen s <=? 255 else id_ok 64 s
-  | None => false
+  let ty := match str_field (bs "type") j with Some ty => ty | None => [] end in
+  let sk := match optstr_field (bs "state_key") j with Some (Some sk) => sk | _ => [] end in
+  let sender := match str_field (bs "sender") j with Some s => s | None => [] end in
+  if negb (match p with
+           | PV1 => true                                   (* eventV1 builds fresh slices: never nil *)
+           | PV2 => nonnil (bs "auth_events") && nonnil (bs "prev_events")
+           | PV3 => nonnil (bs "prev_events")              (* eventV3.AuthEventIDs is never nil *)
+           end) then FErr
+  else if 65536 <? blen (canon_print j) then FTooLarge
+  else if 255 <? rune_count ty then FTooLarge
+  else if 255 <? rune_count sk then FTooLarge
+  else if 255 <? blen ty then FPersist
+  else if 255 <? blen sk then FPersist
+  (* pseudo IDs have no sigil or domain, but the length limits apply to them too *)
+  else if bytes_eqb ver pseudo_id_version then len_class sender
+  else id_class 64 sender.
+
+Definition check_fields (ver : bytes) (p : parser) (j : json) : bool :=
+  match check_fields_class ver p j with FOk => true | _ => false end.
+
+(* the outcome with the class of a refusal; a CheckFields refusal still hands the event back
+   (`return res, err`), which is what makes the persistable class usable *)
+Inductive ufull :=
+| FullErr (c : fclass) (e : option (bool * json))
+| FullOk (redacted : bool) (j : json).
+
+Definition finish (ver : bytes) (p : parser) (fl : bool) (e : json) : ufull :=
+  match check_fields_class ver p e with
+  | FOk => FullOk fl e
+  | c => FullErr c (Some (fl, e))
+  end.
+
+Definition parse_untrusted_full (ver : bytes) (j : json) (hok : bool) : ufull :=
+  match parser_of_version ver with
+  | None => FullErr FErr None
+  | Some (p, fn) =>
+      if has_underscore_key j then FullErr FErr None else
+      let s := strip_with (strip_keys fn) j in
+      match parse_class p s with
+      | FOk =>
+          (* an event that cannot be redacted is refused whatever its hash *)
+          match redact ver s with
+          | None => FullErr FErr None
+          | Some r =>
+              if hok then finish ver p false s
+              else
+                match parse_class p r with
+                | FOk => finish ver p true r
+                | c => FullErr c None
+                end
+          end
+      | c => FullErr c None
+      end
   end.
 
 Inductive uresult := UErr | UOk (redacted : bool) (j : json).
 
 Definition parse_untrusted (ver : bytes) (j : json) (hok : bool) : uresult :=
-  match parser_of_version ver with
-  | None => UErr
-  | Some (p, fn) =>
-      if has_underscore_key j then UErr else
-      let s := strip_with (strip_keys fn) j in
-      if negb (parse_checks p s) then UErr else
-      if hok then (if check_fields ver p s then UOk false s else UErr)
-      else
-        match redact ver s with
-        | None => UErr
-        | Some r => if parse_checks p r && check_fields ver p r then UOk true r else UErr
-        end
+  match parse_untrusted_full ver j hok with
+  | FullOk fl e => UOk fl e
+  | FullErr _ _ => UErr
+  end.
+
+(* ---------- the hash comparison of checkEventContentHash ---------- *)
+(* [real] is the SHA-256 of the hashed form (computed outside the model); hashes.sha256 is
+   decoded by Base64Bytes.Decode (C17's model: alphabet chosen by the presence of - or _, CR and
+   LF skipped, no padding, a final lone character is an error, unused low bits ignored) and ALL
+   decoded bytes are compared; anything that is not a string decodes to nothing *)
+Definition hash_matches (real : bytes) (s : json) : bool :=
+  match jpath [bs "hashes"; bs "sha256"] s with
+  | Some (JStr h) =>
+      match Ident.Base64.base64bytes_decode h with
+      | Some d => bytes_eqb d real
+      | None => false
+      end
+  | _ => bytes_eqb [] real
   end.
